@@ -63,6 +63,8 @@ func (s *_watchSession) done() <-chan struct{} {
 }
 
 func (s *_watchSession) stop() {
+	// unblock a Watch() call that has not returned yet
+	s.cancel()
 	s.lc.ShutdownAsync(nil)
 }
 
